@@ -340,6 +340,8 @@ func vfShouldBindJSON(c *gin.Context, obj any) error {
 		r.Model = vfDeleteName
 	case *api.CreateRequest:
 		*r = vfCreateReq
+	case *api.CopyRequest:
+		*r = vfCopyReq
 	}
 	return nil
 }
